@@ -4,10 +4,13 @@ import glob
 import json
 import os
 
+import sys
+
 HERE = os.path.dirname(os.path.dirname(os.path.abspath(__file__)))
+EVID = sys.argv[1] if len(sys.argv) > 1 else os.path.join(HERE, "evidence")  # optional: another directory of evidence files
 print("| id | level | tier | TLC states | replayed / validated | evaluations | distinct | known findings hit | wall s |")
 print("|---|---|---|---|---|---|---|---|---|")
-for f in sorted(glob.glob(os.path.join(HERE, "evidence", "C*.json"))):
+for f in sorted(glob.glob(os.path.join(EVID, "C*.json"))):
     e = json.load(open(f))
     c = e["coverage"]
     print("| %s | %s | %s | %d | %d | %d | %d | %s | %.0f |" % (e["property_id"], e["level"], e["tier"], c.get("states", 0), c.get("traces_validated_against_impl", 0), c.get("evaluations", 0), c.get("distinct_nontrivial", 0), ", ".join(sorted(c.get("known_findings_hit", {}))) or "-", e["wall_s"]))
